@@ -101,11 +101,13 @@ fn world_of(aspas: &BTreeMap<u32, Vec<u32>>, version: u64) -> World {
     // a newer manifest must also have a later thisUpdate (engine.rs:999); stays >= 1 h in the past
     ta.mft.this_update_secs = -3 * 3600 + version as i64;
     ta.mft_serial = 100 + version;
-    for (i, (customer, providers)) in aspas.iter().enumerate() {
+    for (customer, providers) in aspas.iter() {
+        // the serial does not depend on the version: an unchanged ASPA is the same object (and comes
+        // from the factory's cache) in every version
         ta.objects.push(Obj {
             name: format!("a{customer}.asa"),
             kind: ObjKind::Aspa { customer: *customer, providers: providers.clone() },
-            serial: 100_000 + version * 100 + i as u64, validity: (-2, 48), fault: Fault::None,
+            serial: 1_000_000 + *customer as u64, validity: (-2, 48), fault: Fault::None,
         });
     }
     World {
@@ -325,6 +327,14 @@ fn get_checked(rep: &mut Report, srv: &Srv, query: Option<(u64, u32)>, class: &s
         Some(o) => o,
         None => { bad(rep, "not-an-object", "document is not an object".into(), json!({})); return Some(Checked { resp, reset: truth.reset, ok: false }) }
     };
+    // member names are unique (serde_json silently keeps the last of two members of the same name; with two
+    // "withdrawn" members there is no such thing as *the* withdrawn list).  Item strings cannot contain these.
+    for name in ["\"reset\":", "\"session\":", "\"serial\":", "\"fromSerial\":", "\"announced\":", "\"withdrawn\":"] {
+        let n = resp.body.windows(name.len()).filter(|w| *w == name.as_bytes()).count();
+        if n > 1 {
+            bad(rep, "duplicate-member", format!("member {name} occurs {n} times in the document"), json!({"member": name, "times": n}));
+        }
+    }
     // header members
     if obj.get("reset").and_then(|v| v.as_bool()) != Some(truth.reset) {
         bad(rep, "reset-flag", format!("\"reset\" is {:?}, the history answers with a {kind}", obj.get("reset")), json!({"reset": obj.get("reset")}));
@@ -734,7 +744,7 @@ fn real_first_boundary(resp: &HttpResponse) -> Option<(usize, Vec<(char, usize)>
     Some((i, ends))
 }
 
-struct CaseStats { realised: u64, unrealised: u64, unreachable: u64, pattern_off: u64 }
+struct CaseStats { realised: u64, unrealised: u64, unreachable: u64, pattern_off: u64, sampled: BTreeSet<&'static str> }
 
 fn run_case(rep: &mut Report, srv: &mut Srv, cal: &Cal, c: &Case, class: &str, st: &mut CaseStats) -> Result<(), String> {
     let toks = plan_tokens(c);
@@ -804,10 +814,10 @@ fn run_case(rep: &mut Report, srv: &mut Srv, cal: &Cal, c: &Case, class: &str, s
                             rep.divergence(PID, format!("{class}: second chunk starts with a comma in the {} only", if m { "model" } else { "code" }));
                         }
                     }
-                    rep.sample(PID, json!({"class": class, "model_items": c.raw["items"], "model_chunks": c.model_chunks,
+                    if st.sampled.insert(conc.filler) { rep.sample(PID, json!({"class": class, "model_items": c.raw["items"], "model_chunks": c.model_chunks,
                         "filler": conc.filler, "d0": conc.d0.brief(), "d1": conc.d1.brief(),
                         "real_chunks": main.resp.chunks, "first_chunk_ends_after_token": b,
-                        "second_chunk_starts_with": String::from_utf8_lossy(&main.resp.body[c0..(c0 + 12).min(main.resp.body.len())])}));
+                        "second_chunk_starts_with": String::from_utf8_lossy(&main.resp.body[c0..(c0 + 12).min(main.resp.body.len())])})); }
                     rep.trace(PID);
                     return Ok(())
                 }
@@ -891,6 +901,42 @@ fn sweep(rep: &mut Report, srv: &mut Srv, kind: &str, ns: &[usize]) -> Result<()
     Ok(())
 }
 
+/// Many ASPA items (through the engine): item counts around the first chunk boundary of the reset
+/// document, each followed by the empty set, so that the change sets announce n and withdraw n ASPAs.
+fn aspa_sweep(rep: &mut Report, srv: &mut Srv, cal: &Cal, around: usize) -> Result<(), String> {
+    // first boundary of the announced list (items with one provider) and of the withdrawn list (no providers)
+    let item = cal.aspa(10_000, &[65001]) + 1;
+    let mut nb = 1;
+    while cal.h_reset + 4 + nb * item - 1 <= LIMIT { nb += 1 }
+    let item_w = cal.aspa(10_000, &[]) + 1;
+    let mut nw = 1;
+    while cal.h_delta + 8 + cal.sep + nw * item_w - 1 <= LIMIT { nw += 1 }
+    let mut ns: BTreeSet<usize> = (nb.saturating_sub(around)..=nb + around).collect();
+    ns.extend(nw.saturating_sub(around)..=nw + around);
+    let mut log = Vec::new();
+    for n in ns {
+        let mut ds = DataSet::default();
+        for j in 0..n as u32 { ds.aspas.insert(10_000 + j, vec![65001]); }
+        for (step, set) in [("announce", ds), ("withdraw", DataSet::default())] {
+            let before = srv.serial();
+            srv.install(&set)?;
+            let ctx = json!({"aspa_sweep": n, "step": step, "data": "n ASPAs AS10000.. with provider AS65001, then none"});
+            if let Some(r) = get_checked(rep, srv, Some((srv.session(), before)), "sweep-aspas", &ctx) {
+                chunk_discipline(rep, &r.resp, "aspa sweep delta");
+                if r.ok && !r.reset && r.resp.chunks.len() > 1 { rep.nontrivial(PID, format!("sweep|aspas|{step}|{n}")); }
+                log.push(json!({"n": n, "step": step, "chunks": r.resp.chunks}));
+            }
+            if let Some(r) = get_checked(rep, srv, None, "sweep-aspas", &ctx) {
+                chunk_discipline(rep, &r.resp, "aspa sweep reset");
+                if r.ok && r.resp.chunks.len() > 1 { rep.nontrivial(PID, format!("sweep|aspas|reset|{n}")); }
+            }
+            rep.trace(PID);
+        }
+    }
+    rep.note(PID, "sweep_aspas", json!(log));
+    Ok(())
+}
+
 //------------ Protocol ---------------------------------------------------------------------
 
 fn protocol_before_first_run(rep: &mut Report) {
@@ -971,7 +1017,7 @@ pub fn main(args: &Args) -> i32 {
     rep.touch(PID);
     let mut rng = Rng::new(args.seed);
     let thorough = args.thorough();
-    let parts: BTreeSet<String> = args.opt("parts").unwrap_or("protocol,cases,sweep").split(',').map(String::from).collect();
+    let parts: BTreeSet<String> = args.opt("parts").unwrap_or(if thorough { "protocol,cases,sweep,aspa-sweep" } else { "protocol,cases,sweep" }).split(',').map(String::from).collect();
     let mut tool_errors: Vec<String> = Vec::new();
 
     if parts.contains("protocol") {
@@ -1017,7 +1063,7 @@ pub fn main(args: &Args) -> i32 {
             let mut srv = Srv::with_aspas(factory)?;
             let cal = calibrate(&mut srv)?;
             rep.note(PID, "calibration", json!(format!("{cal:?}")));
-            let mut st = CaseStats { realised: 0, unrealised: 0, unreachable: 0, pattern_off: 0 };
+            let mut st = CaseStats { realised: 0, unrealised: 0, unreachable: 0, pattern_off: 0, sampled: BTreeSet::new() };
             let mut done = 0usize;
             'outer: for (class, cases) in by_class.iter_mut() {
                 if !chosen.contains(class) { continue }
@@ -1029,6 +1075,9 @@ pub fn main(args: &Args) -> i32 {
                     done += 1;
                     if done >= max_cases { break 'outer }
                 }
+            }
+            if parts.contains("aspa-sweep") {
+                aspa_sweep(&mut rep, &mut srv, &cal, args.opt_usize("aspa-around", 3))?;
             }
             rep.note(PID, "cases_run", json!(done));
             rep.note(PID, "cases_seconds_publish_slurm_run", json!(format!("{:.1} {:.1} {:.1} ({} runs)", srv.t_publish, srv.t_slurm, srv.t_run, srv.runs)));
